@@ -44,6 +44,14 @@ STRENGTHENED = {
  'C20_5': 'inconclusive at first (`np.asarray(vector, dtype=float)` of proxies) -> numpy shim in artap.individual; `containers-ndarray-*`: each point in several comparisons, operands untouched, hash unchanged',
  'C03_6': 'missed at first (crowding_distance called once per front) -> the same front is ranked again in another order and all crowding laws are re-checked on the new values',
  'C05_6': 'missed at first (one Problem object per process) -> configurations that create another Problem with the opposite minimise/maximise assignment first',
+ 'C12_6': 'missed at first (only the default criterion of lhs() was run) -> criteria center / maximin / centermaximin / correlation with the C-level candidate scores replaced by arbitrary ones',
+ 'C13_6': 'missed at first (a fresh GSDGenerator for the complementary family) -> the same generator object is initialised a second time',
+ 'C14_6': 'missed at first (every batch held new designs only) -> an earlier design is re-submitted with a later batch',
+ 'C15_6': 'missed at first (one function object per process; then a second one created BEFORE the object under test) -> other objects of the same class with other dimensions created before AND after it',
+ 'C16_6': 'missed at first (one DTLZ object per process) -> other DTLZ objects with the same m and another dimension, and with another m, evaluated before and after',
+ 'C18_6': 'missed at first (pre-states with at most N leaders) -> pre-states with more leaders than the population size (size option lowered since the last generation)',
+ 'C19_6': 'missed at first (train_step fixed per run) -> train_step switched in the middle of a request sequence',
+ 'C20_6': 'missed at first (all points had distinct ids) -> points that carry the same id (from_dict / deepcopy) with different vectors',
  'C20_4': 'inconclusive at first (`hash(point)` inside the library hit the int-only builtin) -> shim calls the real `__hash__`; the real CPython collision hash(-1.0) == hash(-2.0) as model-selection hint so that the counterexample replays',
 }
 print('| seed | change (abridged) | needs | verdict of the check(s) on the patched tree | note |')
